@@ -129,6 +129,10 @@ theorem lexN_flat (rows : List Row) (args : List Str) (toks : Str → List LTok)
       simp only [lexN, ha, Bool.false_eq_true, if_false, List.flatMap_cons]
       rw [ih n (by simpa using hn) (fun b hb => h b (by simp [hb]))]
 
+theorem lexN_cons (rows : List Row) (a : Str) (rest : List Str) (n : Nat) (ts : List LTok)
+    (h : ∀ next, lexArg rows a next = (ts, false)) : lexN rows (n + 1) (a :: rest) = ts ++ lexN rows n rest := by
+  simp only [lexN, h rest.head?, Bool.false_eq_true, if_false]
+
 theorem lex_flat (rows : List Row) (args : List Str) (toks : Str → List LTok)
     (h : ∀ a ∈ args, ∀ next, lexArg rows a next = (toks a, false)) :
     lex rows args = args.flatMap toks := lexN_flat rows args toks _ (Nat.le_refl _) h
